@@ -196,12 +196,18 @@ struct CalcSpec {
 }
 
 fn calc_fn(_prog: &[u8], pc: usize, data: &mut dyn Any) -> u16 {
-    let s = data.downcast_ref::<CalcSpec>().unwrap();
+    // stack.rs passes `&mut Box<dyn Any>` coerced to `&mut dyn Any`: look through the box
+    let s = match data.downcast_ref::<CalcSpec>() {
+        Some(s) => s,
+        None => data.downcast_ref::<Box<dyn Any>>().and_then(|b| b.downcast_ref::<CalcSpec>()).unwrap(),
+    };
     *s.table.get(&pc).unwrap_or(&s.default)
 }
 
 fn classify(msg: &str) -> &'static str {
-    if msg.contains("out of bounds memory load") {
+    if msg.contains("[Verifier]") {
+        "verifier"
+    } else if msg.contains("out of bounds memory load") {
         "oob_load"
     } else if msg.contains("out of bounds memory store") {
         "oob_store"
@@ -566,14 +572,14 @@ fn vf_accept_all(_p: &[u8]) -> Result<(), std::io::Error> {
     Ok(())
 }
 fn vf_reject_all(_p: &[u8]) -> Result<(), std::io::Error> {
-    Err(std::io::Error::other("reject"))
+    Err(std::io::Error::other("[Verifier] reject-all"))
 }
-/// custom verifier: accepts exactly the programs whose last slot is `exit`
+/// custom verifier: accepts exactly the programs whose last slot is `exit` and that contain no call
 fn vf_ends_exit(p: &[u8]) -> Result<(), std::io::Error> {
-    if p.len() >= 8 && p.len() % 8 == 0 && p[p.len() - 8] == 0x95 {
+    if p.len() >= 8 && p.len() % 8 == 0 && p[p.len() - 8] == 0x95 && !p.chunks(8).any(|c| c[0] == 0x85) {
         Ok(())
     } else {
-        Err(std::io::Error::other("no exit"))
+        Err(std::io::Error::other("[Verifier] custom: no exit / has call"))
     }
 }
 
